@@ -117,27 +117,48 @@ func VerifFileRangeLoads() {
 		return
 	}
 	bf.st.Loads = nil
-	a := verifrt.IntRange(0, L-1)
-	b := verifrt.IntRange(1, L)
-	verifrt.Assume(a < b)
 	rs, err := lb.AsLargeBytes()
 	verifrt.Assert(err == nil, "aslargebytes-ok")
-	pos, err := rs.Seek(int64(a), io.SeekStart)
-	verifrt.Assert(err == nil && pos == int64(a), "seek-ok")
-	n := verifrt.Concrete(b - a)
-	buf := make([]byte, n)
-	got, err := io.ReadFull(rs, buf)
-	verifrt.Assert(err == nil && got == n, "readfull-ok")
-	ca := verifrt.Concrete(a)
-	verifrt.Assert(verifrt.BytesEq(buf, bf.content[ca:ca+n]), "range-bytes")
+	// `ranges` ranges are read one after the other through the SAME reader (a Seek
+	// between them, in either direction): what is fetched is what the ranges need
+	neededKey := map[string]bool{}
+	for r := 0; r < verifrt.Param("ranges", 1); r++ {
+		a := verifrt.IntRange(0, L-1)
+		b := verifrt.IntRange(1, L)
+		verifrt.Assume(a < b)
+		whence, off := io.SeekStart, int64(a)
+		if r > 0 && verifrt.Choose(2) == 1 {
+			cur, err := rs.Seek(0, io.SeekCurrent)
+			verifrt.Assert(err == nil, "seek-ok")
+			whence, off = io.SeekCurrent, int64(a)-cur
+		}
+		pos, err := rs.Seek(off, whence)
+		verifrt.Assert(err == nil && pos == int64(a), "seek-ok")
+		n := verifrt.Concrete(b - a)
+		buf := make([]byte, n)
+		got, err := io.ReadFull(rs, buf)
+		verifrt.Assert(err == nil && got == n, "readfull-ok")
+		ca := verifrt.Concrete(a)
+		verifrt.Assert(verifrt.BytesEq(buf, bf.content[ca:ca+n]), "range-bytes")
+		for i, blk := range bf.blocks {
+			if i > 0 && blk.lo < ca+n && ca < blk.hi {
+				neededKey[blk.key] = true
+			}
+		}
+		if r > 0 {
+			verifrt.Reach("second-range")
+		}
+	}
 	loaded := loadedSet(bf.st)
+	// (by key: with repeated chunks one block sits at several positions)
 	for i, blk := range bf.blocks {
 		if i == 0 {
-			verifrt.Assert(loaded[blk.key] == 0, "root-not-refetched")
+			if !neededKey[blk.key] {
+				verifrt.Assert(loaded[blk.key] == 0, "root-not-refetched")
+			}
 			continue
 		}
-		needed := blk.lo < ca+n && ca < blk.hi
-		if needed {
+		if neededKey[blk.key] {
 			verifrt.Assert(loaded[blk.key] >= 1, "needed-block-fetched")
 		} else {
 			verifrt.Assert(loaded[blk.key] == 0, "unneeded-block-not-fetched")
@@ -177,11 +198,25 @@ func VerifFileFullReadOrder() {
 		verifrt.Assert(err == nil && node != nil, "preload-ok")
 	}
 	first := firstRequests(bf.st)
-	verifrt.Assert(len(first) == len(bf.blocks)-1, "order:every-block-requested")
-	for i := 1; i < len(bf.blocks) && i-1 < len(first); i++ {
-		verifrt.Assert(first[i-1] == bf.blocks[i].key, "order:depth-first-link-order")
+	// the distinct blocks below the root, in depth-first link order of their first
+	// occurrence (with repeated chunks one block sits at several positions)
+	var want []string
+	seen := map[string]bool{bf.blocks[0].key: true}
+	for _, blk := range bf.blocks[1:] {
+		if !seen[blk.key] {
+			seen[blk.key] = true
+			want = append(want, blk.key)
+		}
 	}
-	verifrt.Assert(len(bf.st.Loads) == len(first), "each-block-once")
+	verifrt.Assert(len(first) == len(want), "order:every-block-requested")
+	for i := 0; i < len(want) && i < len(first); i++ {
+		verifrt.Assert(first[i] == want[i], "order:depth-first-link-order")
+	}
+	// (how often a block is requested is not part of any property: only which blocks,
+	// and the order of their first requests)
+	if len(want) < len(bf.blocks)-1 {
+		verifrt.Reach("repeated-block")
+	}
 	verifrt.Reach("end")
 }
 
@@ -210,6 +245,13 @@ func VerifFileMissingBlock() {
 		injected = errIO
 	}
 	miss := bf.blocks[m]
+	// with repeated chunks the missing block may sit at an earlier position too
+	for _, blk := range bf.blocks[1:m] {
+		if blk.key == miss.key {
+			miss = blk
+			break
+		}
+	}
 	bf.st.FailLoad = func(key string, nth int) error {
 		if key == miss.key {
 			return injected
